@@ -165,8 +165,15 @@ def _field_set_rule(ctx, prog, sa):
         def after_stmt(self, node, state, flow):
             st = node.stmt
             if node.kind == "stmt" and isinstance(st, (ast.Assign, ast.AnnAssign)):
-                tg = st.targets if isinstance(st, ast.Assign) else [st.target]
-                for t in tg:
+                tg = list(st.targets) if isinstance(st, ast.Assign) else [st.target]
+                flat = []
+                while tg:
+                    t0 = tg.pop()
+                    if isinstance(t0, (ast.Tuple, ast.List)):
+                        tg = list(tg) + list(t0.elts)  # self['a'], self['b'] = x, y
+                    else:
+                        flat.append(t0)
+                for t in flat:
                     if isinstance(t, ast.Subscript) and canon(t.value) == "self":
                         k = const_str(t.slice)
                         if k:
